@@ -6,6 +6,9 @@ dense / sparse / scalar contexts), every shift / scale / statistic choice (singl
 is replayed into the real coba.environments.filters.Scale / Impute and into Environments.scale / Environments.impute,
 with the numbers given as Python ints and as floats; the produced contexts are compared cell by cell with the spec's
 (1e-9), every other field of every interaction by equality, the number and order of interactions by a per-row tag.
+Every filter object (and every Environments object, built with one environment per sequence) is then applied to a
+second, different sequence - another spec case with the same parameters - and to the first one again; each application
+must give the spec's expectation for its own sequence (a filter is a function of the sequence it is given, not of its past).
 Python only converts values (rational -> float, model cell -> Python object) and compares."""
 import json, math, os
 from fractions import Fraction
@@ -13,7 +16,8 @@ from .. import tlc, tracecheck
 
 FINISH = dict(level="model_checking",
               rule="a case = one TLC-generated (filter, context layout, data set, parameters, window) replayed into the real "
-                   "filter and the Environments method under one numeric representation; distinct = distinct spec cases")
+                   "filter and the Environments method under one numeric representation, followed on the same object by a second spec case "
+                   "with the same parameters and by the first one again; distinct = distinct spec cases")
 
 NAN = float("nan")
 STR = {1: "s", 2: "t"}
@@ -126,17 +130,25 @@ def make_rows(case, rep):
     return rows
 
 
-def apply_filter(case, rows, api):
+def make_reader(case, api, seqs):
+    """ONE filter object (api 'filter') or ONE Environments object holding one environment per sequence (Environments.filter
+    hands a single filter object to all of them).  Returns read(k): the filtered k-th sequence."""
     from coba.environments import Environments
     from coba.environments.filters import Scale, Impute
     using = case["using"] or None
     if case["f"] == "scale":
         sh, sc = param_py(case["par"]["sh"]), param_py(case["par"]["sc"])
-        if api == "filter": return Scale(sh, sc, "context", using).filter(rows)
-        return Environments.from_custom(Src(rows)).scale(sh, sc, "context", using)[0].read()
+        if api == "filter":
+            flt = Scale(sh, sc, "context", using)
+            return lambda k: flt.filter(seqs[k])
+        envs = Environments(*[Src(rows) for rows in seqs]).scale(sh, sc, "context", using)
+        return lambda k: envs[k].read()
     stats, ind = case["par"]["stats"], case["par"]["ind"]
-    if api == "filter": return Impute(stats[0], ind, using).filter(rows)
-    return Environments.from_custom(Src(rows)).impute(stats[0] if len(stats) == 1 and api == "env" else list(stats), ind, using)[0].read()
+    if api == "filter":
+        flt = Impute(stats[0], ind, using)
+        return lambda k: flt.filter(seqs[k])
+    envs = Environments(*[Src(rows) for rows in seqs]).impute(stats[0] if len(stats) == 1 and api == "env" else list(stats), ind, using)
+    return lambda k: envs[k].read()
 
 
 def col_traits(case, j):
@@ -163,13 +175,11 @@ def feature_of(case, pos):
     return {"a": 0, "b": 1}.get(pos)
 
 
-def replay(ctx, case, rep, api):
-    """Returns None or (kind, detail, text)."""
-    rows = make_rows(case, rep)
-    keep = [dict(r) for r in rows]
+def judge(case, rep, api, rows, keep, produce):
+    """Compare what `produce()` yields for one sequence with the spec's expectation.  None or (kind, detail, at, text)."""
     out = []
     try:
-        for o in apply_filter(case, rows, api): out.append(o)
+        for o in produce(): out.append(o)
     except Exception as e:
         return ("raises", type(e).__name__, len(out), "%s: %s after %d of %d interactions" % (type(e).__name__, str(e)[:100], len(out), len(rows)))
     if len(out) != len(rows):
@@ -191,6 +201,23 @@ def replay(ctx, case, rep, api):
             pos, e, g = d
             return ("differs", (pos, e, g, i), None, "interaction %d, position %r: expected %s, got %r (context %r -> %r)" % (
                 i, pos, json.dumps(e) if e else "nothing / another layout", g, r["context"], o["context"]))
+    return None
+
+
+def replay(ctx, case, rep, api, partner=None, reread=False):
+    """One filter object / one Environments object applied to the case's sequence, then (partner) to a second, different
+    sequence with the same parameters, then (reread) to the first sequence once more.  Every application is compared with
+    the spec's expectation for ITS OWN sequence.  Returns None or (step, kind, detail, at, text)."""
+    data = [case] + ([partner] if partner is not None else [])
+    seqs = [make_rows(c, rep) for c in data]                 # the very same interaction objects are read again by `reread`
+    keeps = [[dict(r) for r in rows] for rows in seqs]
+    try:
+        read = make_reader(case, api, seqs)
+    except Exception as e:
+        return (0, "raises", type(e).__name__, None, "%s: %s while building the filter" % (type(e).__name__, str(e)[:100]))
+    for step, k in enumerate([0] + ([1] if partner is not None else []) + ([0] if reread else [])):
+        res = judge(data[k], rep, api, seqs[k], keeps[k], lambda: read(k))
+        if res is not None: return (step,) + res
     return None
 
 
@@ -219,28 +246,51 @@ def job(args):
     for c in cases: del c["_k"]
     # numbers as ints and as floats (thorough: also ints and floats alternating by row)
     reps = {a: ("int", "float") if quick else ("int", "float", "alt") for a in ("filter", "env", "envlist")}
-    replays = 0; viol = []; seen = {}
-    for c in cases:
+    # the second sequence of a case: another case of the same filter, layout, parameters and window (so both expectations
+    # come from the spec), picked at a varying distance in the sorted group
+    groups = {}
+    for i, c in enumerate(cases): groups.setdefault(json.dumps([c["par"], c["using"], c["shape"]], sort_keys=True), []).append(i)
+    partner = {}
+    for g in groups.values():
+        n = len(g)
+        for x, i in enumerate(g):
+            if n > 1: partner[i] = g[(x + 1 + (x * 5) % (n - 1)) % n]
+    replays = 0; applications = 0; viol = []; seen = {}
+    def report(c, rep, api, sig, text, extra):
+        seen[sig] = seen.get(sig, 0) + 1
+        if seen[sig] <= 3:
+            what = "%s %s(%s, using=%r) [%s, numbers as %s]: %s" % (c["shape"], c["f"], json.dumps(c["par"]), c["using"] or None, api, rep, text)
+            viol.append((sig, what, dict(case=c, rep=rep, api=api, **extra)))
+        else:
+            viol.append((sig, None, None))
+    for i, c in enumerate(cases):
         has_num = any(x["t"] == "num" for col in c["cols"] for x in col)
         apis = ("filter", "env") if len(c["par"].get("stats", [1])) == 1 else ("envlist",)
+        p = cases[partner[i]] if i in partner else None
+        reread = not quick or i % 4 == 0                           # quick: the first sequence is read again for every 4th case
         for api in apis:
             for rep in reps[api]:
-                if rep != "int" and not has_num: continue
-                replays += 1
-                res = replay(None, c, rep, api)
+                if rep != "int" and not has_num and not (p and any(x["t"] == "num" for col in p["cols"] for x in col)): continue
+                replays += 1; applications += 1 + (p is not None) + reread
+                res = replay(None, c, rep, api, p, reread)
                 if res is None: continue
-                kind, detail, at, text = res
-                if kind == "raises" and api == "env":     # the pipeline buffers: locate the failing interaction with the bare filter
-                    loc = replay(None, c, rep, "filter")
-                    if loc is not None and loc[0] == "raises": at = loc[2]
-                sig = classify(c, rep, api, kind, detail, at)
-                seen[sig] = seen.get(sig, 0) + 1
-                if seen[sig] <= 3:
-                    what = "%s %s(%s, using=%r) [%s, numbers as %s]: %s" % (c["shape"], c["f"], json.dumps(c["par"]), c["using"] or None, api, rep, text)
-                    viol.append((sig, what, dict(case=c, rep=rep, api=api)))
-                else:
-                    viol.append((sig, None, None))
-    return dict(name=name, stats=st, ncases=len(cases), replays=replays, viol=viol, sample=cases[len(cases) // 2])
+                step, kind, detail, at, text = res
+                if step == 0:
+                    if kind == "raises" and api == "env":     # the pipeline buffers: locate the failing interaction with the bare filter
+                        loc = replay(None, c, rep, "filter")
+                        if loc is not None and loc[1] == "raises": at = loc[3]
+                    report(c, rep, api, classify(c, rep, api, kind, detail, at), text, {})
+                    continue
+                # a later application failed: is it the sequence itself (reported where it comes first) or the object's history?
+                if step == 1 and p is not None and replay(None, p, rep, api) is not None: continue
+                again = step == 2 or p is None
+                sig = "%s:%s:reused-object:%s" % (c["f"], "filter" if api == "filter" else "environments", "first-sequence-again" if again else "second-sequence")
+                text = "the same %s, after filtering %r, applied to %s: %s" % (
+                    "filter object" if api == "filter" else "Environments object (one environment per sequence)",
+                    [context_py(x, rep, k) for k, x in enumerate(c["given"])],
+                    "the first sequence again" if again else "a second sequence %r" % [context_py(x, rep, k) for k, x in enumerate(p["given"])], text)
+                report(c, rep, api, sig, text, dict(partner=p, step=step))
+    return dict(name=name, stats=st, ncases=len(cases), replays=replays, applications=applications, viol=viol, sample=cases[len(cases) // 2])
 
 
 def run(ctx):
@@ -256,18 +306,19 @@ def run(ctx):
         subst = {"Usings = {0, 1, 2}": "Usings = {0, 1, 2, 5}", "Lite = TRUE": "Lite = FALSE"}
         jobs = [("%s_%d" % (f, hi), f, lo, hi) for f in one for lo, hi in ((4, 4), (1, 3))] + [("%s_%d" % (f, n), f, n, n) for f in two for n in (3, 2)]
     args = [(name, fam, lo, hi, ctx.quick, ctx.scratch, subst) for name, fam, lo, hi in jobs]
-    total = 0
+    total = 0; applications = 0
     with ProcessPoolExecutor(ctx.pick(8, 12), mp_context=multiprocessing.get_context("fork")) as ex:
         for n, out in enumerate(ex.map(job, args)):         # results are consumed in the fixed order of `jobs`
             if "error" in out: raise MachineryError("job %s: %s" % (out["name"], out["error"]))
             ctx.add_tlc("ScaleImpute:" + out["name"], out["stats"])
             for i in range(out["ncases"]): ctx.case((n, i))
-            ctx.evaluations += out["replays"] - out["ncases"]; ctx.traces += out["replays"]
+            ctx.evaluations += out["replays"] - out["ncases"]; ctx.traces += out["replays"]; applications += out["applications"]
             ctx.sample(out["sample"], limit=8)
             for sig, what, obj in out["viol"]: ctx.violation(sig, what or "", obj)
             total += out["ncases"]
     ctx.exhaustive = True
     ctx.extra["spec_cases"] = total
+    ctx.extra["filter_applications"] = applications
     ctx.extra["bounds"] = dict(jobs=[j[0] for j in jobs], rows_one_feature=ctx.pick(3, 4), rows_two_features=ctx.pick(2, 3))
     ctx.assumptions += [
         "floats: produced values are compared with the spec's exact rationals to 1e-9 (relative); rounding, overflow and values within 1e-6 of a zero spread are not explored",
